@@ -77,6 +77,14 @@ def build_graph(case):
             kinds[rn] = "ref"
             G[owner].add(rn)
             return xo.Ref[tj]
+        if mode == "base" and nodes[j]["kind_eff"] == "array":
+            # the generated array class a named array class derives from, used as a type of its own
+            b = tj.__bases__[0]
+            bn = b.__name__
+            G.setdefault(bn, set()).update(G[names[j]])
+            kinds[bn] = "array_base"
+            G[owner].add(bn)
+            return b
         if mode == "arr":
             an = "Arr2" + names[j]
             G.setdefault(an, set()).add(names[j])
@@ -225,9 +233,21 @@ def run_case(case):
     n = len(cls)
     roots = [r % n for r in case["roots"]]
     root_cls = [cls[r] for r in roots]
-    clo = closure(G, [names[r] for r in roots])
+    root_names = [names[r] for r in roots]
+    labels = set()
+    overridden = None
+    sh = case.get("shadow")
+    if sh is not None and case["nodes"][sh % n]["kind_eff"] == "struct" and G[names[sh % n]]:
+        # two DIFFERENT classes of one name among the roots: the later one is the one to use (documented); the earlier
+        # one here is a version of the class without its dependencies
+        i_ = sh % n
+        overridden = type(cls[i_].__name__, (xo.Struct,), {"x": xo.Int32})
+        root_cls = [overridden] + root_cls + [cls[i_]]
+        root_names = root_names + [names[i_]]
+        labels.add("same_name_override")
+    clo = closure(G, root_names)
     cyclic = has_cycle(G, clo)
-    labels = {f"n_{n}", f"closure_{min(len(clo), 8)}"}
+    labels |= {f"n_{n}", f"closure_{min(len(clo), 8)}"}
     for nm in clo:
         labels.add("kind:" + kinds[nm])
     if cyclic:
@@ -272,6 +292,8 @@ def run_case(case):
     for i_, c_ in enumerate(cls):
         if names[i_] in members and [m.__name__ for m in c_._reftypes] != members[names[i_]]:
             return fail("sorting_altered_a_class", f"union {names[i_]}: members were {members[names[i_]]}, after sorting {[m.__name__ for m in c_._reftypes]}", "union_members", labels)
+    if overridden is not None and any(c is overridden for c in res):
+        return fail("overridden_class_used", f"two classes named {overridden.__name__} among the roots: the earlier one is in the result {got}", "", labels)
     # exactly once, nothing else
     for nm in clo:
         c = got.count(nm)
@@ -353,7 +375,7 @@ def cases(draw, tier):
         if i > 0:
             k = min(i, draw(st.sampled_from([0, 1, 1, 2, 2, 3])))
             targets = draw(st.lists(st.integers(0, i - 1), min_size=k, max_size=k))
-            edges = [[t, draw(st.sampled_from(["direct", "direct", "ref", "arr"]))] for t in targets]
+            edges = [[t, draw(st.sampled_from(["direct", "base", "base", "ref", "arr"] if nodes[t]["kind"] == "array" else ["direct", "direct", "ref", "arr"]))] for t in targets]
         nodes.append({"kind": kind, "edges": edges})
     declared = []
     nd = draw(st.sampled_from([0, 0, 1, 1, 2, 3]))
@@ -369,7 +391,8 @@ def cases(draw, tier):
     roots = draw(st.lists(st.integers(0, n - 1), min_size=1, max_size=min(n + 1, 4)))
     if draw(st.integers(0, 3)) > 0:
         roots = [n - 1] + roots
-    return {"nodes": nodes, "declared": declared, "roots": roots, "build": draw(st.integers(0, 9)) == 0, "omp": draw(st.integers(0, 5)) == 0}
+    shadow = draw(st.integers(0, n - 1)) if draw(st.integers(0, 3)) == 0 else None
+    return {"nodes": nodes, "declared": declared, "roots": roots, "shadow": shadow, "build": draw(st.integers(0, 9)) == 0, "omp": draw(st.integers(0, 5)) == 0}
 
 
 def strategy(tier):
@@ -381,7 +404,7 @@ def budget(tier):
 
 
 def essential_labels(tier):
-    return ["cyclic", "diamond", "chain_depth_3plus", "fieldless_dependency", "kind:hybrid", "kind:ehybrid", "kind:unionref", "kind:ref", "kind:anon_array", "real_build", "duplicate_roots"]
+    return ["cyclic", "diamond", "chain_depth_3plus", "fieldless_dependency", "kind:hybrid", "kind:ehybrid", "kind:unionref", "kind:ref", "kind:anon_array", "kind:array_base", "same_name_override", "real_build", "duplicate_roots"]
 
 
 # --------------------------------------------------------------------------
